@@ -328,7 +328,8 @@ impl StringGenerator {
             let len = if self.options.compress && !self.options.preserve_line_length {
                 let mut last = area.get_width() - 1;
                 let last_attr = layer.get_char((last, y)).attribute;
-                if last_attr.background_color == 0 {
+                // trimmed cells come back as default blanks: blinking blanks must stay
+                if last_attr.background_color == 0 && !last_attr.is_blinking() {
                     while last > area.left() {
                         let c = layer.get_char((last, y));
 
